@@ -47,7 +47,7 @@ check(
 
 check(
     "C15", "hist",
-    "Seeded search over histories of solve / Save_Iter / folder change / Get_results / Set_Iter / Result(iter=i) / mesh replacement / time-scheme switch / Save / Load_Simu / Mesh.Save+Load_Mesh / scribbling on returned arrays, for Elastic (static and dynamic), Thermal, PhaseField, InElastic, HyperElastic and WeakForms simulations with 1-3 meshes in one history, on a simulated disk. Oracle: deep-copied snapshots taken when each iteration was saved (fields, internal variables, mesh digest, named results); after every operation every stored iteration is re-read and compared exactly. A separate fault batch injects EIO/ENOSPC/EACCES on open/write/read and process kills (clean and torn) inside Save_Iter/Save/Get_results/Set_Iter/Load_Simu with the narrowed oracle 'may fail, never wrong data', including restart from what the disk holds.",
+    "Seeded search over histories of solve / Save_Iter / folder change / Get_results / Set_Iter / Result(iter=i) / mesh replacement / time-scheme switch / Save / Load_Simu / Mesh.Save+Load_Mesh / scribbling on returned arrays, for Elastic (static and dynamic), Thermal, PhaseField, InElastic, HyperElastic and WeakForms simulations with 1-3 meshes in one history (including meshes with two main-dimension groups, TRI3 + QUAD4, whose group order fixes the element numbering; element-wise results are part of the snapshots), on a simulated disk. Oracle: deep-copied snapshots taken when each iteration was saved (fields, internal variables, mesh digest, named results); after every operation every stored iteration is re-read and compared exactly. A separate fault batch injects EIO/ENOSPC/EACCES on open/write/read and process kills (clean and torn) inside Save_Iter/Save/Get_results/Set_Iter/Load_Simu with the narrowed oracle 'may fail, never wrong data', including restart from what the disk holds.",
     "Trusted: the snapshot recorder (deep copies through public getters plus the two name-mangled state attributes the property's anchors name: InElastic committed variables, PhaseField history field), pickle, the tmpfs under the simulated disk. Process kill semantics: bytes accepted by write() survive (no power-loss model). Velocity/acceleration are compared after Set_Iter only when the scheme active at restore time stores them. Two open findings are steered around in the random batch and reproduced from their own replay files (known_findings.json).",
     "deterministic simulation with disk-fault and crash injection: seeded op/fault sequences vs snapshot reference model, ddmin-minimised replay files",
     "DESIGN.md section 5, C15",
@@ -55,7 +55,7 @@ check(
 
 check(
     "C03", "asm",
-    "Seeded search over sequences of repeated assemblies interleaved with everything that moves the key of the cached element-to-CSR map (new element values, absent/present slots, real/complex values, Lagrange conditions and Dirichlet dofs changing Ndof, Bc_Init, mesh replacement, node renumbering, coordinate changes, Need_Update, Save_Iter/Set_Iter) on a harness-defined _Simu subclass (bulk + boundary + point groups, 1-2 problem types with different dofs per node in one object) and on Thermal / Elastic / PhaseField simulations. After every assembly K, C, M, F are compared (1e-12) with a dense loop summation of the very element arrays Construct_local_matrix_system returned for that call; shape, canonical CSR and complex dtype are checked; renumbering must give P K P^T. A fault batch makes the k-th sparse construction of an assembly fail with MemoryError (assembly interrupted after some slots were built and maps cached): the repeated assembly must be exact and an interrupted Get_K_C_M_F must still ask for an update. Probes count reused vs rebuilt maps.",
+    "Seeded search over sequences of repeated assemblies interleaved with everything that moves the key of the cached element-to-CSR map (new element values, absent/present slots, real/complex values, Lagrange conditions and Dirichlet dofs changing Ndof, Bc_Init, mesh replacement, node renumbering, coordinate changes, Need_Update, Save_Iter/Set_Iter) on a harness-defined _Simu subclass (bulk + boundary + point groups, boundary groups either the mesh's own or user-built copies with the elements in another order, 1-2 problem types with different dofs per node in one object) and on Thermal / Elastic / PhaseField simulations. After every assembly K, C, M, F are compared (1e-12) with a dense loop summation of the very element arrays Construct_local_matrix_system returned for that call; shape, canonical CSR and complex dtype are checked; renumbering must give P K P^T. A fault batch makes the k-th sparse construction of an assembly fail with MemoryError (assembly interrupted after some slots were built and maps cached): the repeated assembly must be exact and an interrupted Get_K_C_M_F must still ask for an update. Probes count reused vs rebuilt maps.",
     "Trusted: the dense loop reference (simkit.refs.ref_scatter_*), the wrapper that records the element arrays, NumPy. Staleness of Get_K_C_M_F() is not decided here (C14). The clause 'the solution is permuted by renumbering' is covered only through P K P^T (the solve itself is C04).",
     "deterministic simulation: seeded assembly/cache-key histories vs dense scatter-add reference, ddmin-minimised replay files",
     "DESIGN.md section 5, C03",
@@ -69,7 +69,7 @@ check(
 )
 check(
     "C05", "dyn",
-    "Seeded search over time-stepping histories (Elastic with Rayleigh damping: newmark, hht, hht_newmark, midpoint, backward and forward Euler; Thermal and linear WeakForms: parabolic theta-scheme and hyperbolic schemes): arbitrary prior states, parameters drawn from the accepted ranges, step size over four decades, load/constraint changes, scheme or step-size switches between steps, Save_Iter/Set_Iter rollback, injected back-end failure + retry, virtual clock jumps. After every step: documented update relations (well-conditioned forms), K u_t + C v_t + M a_t = F on free dofs, constraints, equality with one generic dense reference integrator built from the documented scheme definitions (backward-error based tolerances), weights = derivatives of the evaluation-point states, and discrete energy (conserved by Newmark(1/4,1/2) and midpoint, non-increasing for backward Euler) in free undamped motion. The incremental (Newton) path is driven by a HyperElastic actor under newmark / hht / hht_newmark / midpoint / backward Euler: update relations and R_int(u_t) + M a_t = f_ext on the free dofs (internal force from a brand-new static simulation assembled at u_t), with failed steps retried after a change of step size or scheme.",
+    "Seeded search over time-stepping histories (Elastic with Rayleigh damping: newmark, hht, hht_newmark, midpoint, backward and forward Euler; Thermal and linear WeakForms: parabolic theta-scheme and hyperbolic schemes): arbitrary prior states (magnitudes from 1e-16 to 1: nothing in a linear scheme may depend on the units), parameters drawn from the accepted ranges, step size over four decades, load/constraint changes, scheme or step-size switches between steps, Save_Iter/Set_Iter rollback, injected back-end failure + retry, virtual clock jumps. After every step: documented update relations (well-conditioned forms), K u_t + C v_t + M a_t = F on free dofs, constraints, equality with one generic dense reference integrator built from the documented scheme definitions (backward-error based tolerances), weights = derivatives of the evaluation-point states, and discrete energy (conserved by Newmark(1/4,1/2) and midpoint, non-increasing for backward Euler) in free undamped motion. The incremental (Newton) path is driven by a HyperElastic actor under newmark / hht / hht_newmark / midpoint / backward Euler: update relations and R_int(u_t) + M a_t = f_ext on the free dofs (internal force from a brand-new static simulation assembled at u_t), with failed steps retried after a change of step size or scheme.",
     "Trusted: the reference integrator (simkit.engines.dyn.ref_states/ref_step, transcribed from the AlgoType and Solver_Set_Parabolic_Algorithm docstrings), dense NumPy algebra, K/C/M/F as returned by Get_K_C_M_F (their correctness is C01-C03). Parabolic alpha is drawn from (0.05, 1]; alpha = 0 is documented but divides by zero and is not generated. The Newton actor uses the pointwise stress only (the other stress options are C18's).",
     "deterministic simulation: seeded step/parameter/state/fault histories vs generic reference integrator, ddmin-minimised replay files",
     "DESIGN.md section 5, C05",
@@ -77,28 +77,28 @@ check(
 
 check(
     "C11", "law",
-    "PARTIAL CLAIM - only the clause 'changing a parameter changes the law on next read'. Seeded search over sequences of parameter writes (scalars and per-element / per-Gauss-point fields), plane-stress toggles, Set_C (Voigt / Kelvin-Mandel) and reads of C, S, Get_sqrt_C_S, Walpole_Decomposition on Isotropic, TransverselyIsotropic, Orthotropic and Anisotropic laws (2D/3D, unnormalised orthogonal axes), observed by 0-2 real Elastic simulations. Oracle: a law freshly constructed with the final parameters returns byte-identical C and S; equal-value writes and writes the setter rejects are generated on purpose (they must neither cancel a pending change nor leave a trace); whenever a write leaves an update flag down the law and the observers' matrices are read at once and must be those of the final parameters; observers reassemble the K of the final law; on every reached state C = C^T, C.S = I, eig(C) > 0, sqrt(C)^2 = C (invariants on visited states only).",
+    "PARTIAL CLAIM - only the clause 'changing a parameter changes the law on next read'. Seeded search over sequences of parameter writes (scalars and per-element / per-Gauss-point fields), plane-stress toggles, Set_C (Voigt / Kelvin-Mandel) and reads of C, S, Get_sqrt_C_S, Walpole_Decomposition on Isotropic, TransverselyIsotropic, Orthotropic and Anisotropic laws (2D/3D, unnormalised orthogonal axes), observed by 0-2 real Elastic simulations. Oracle: a law freshly constructed with the final parameters returns byte-identical C and S; arrays returned by parameter reads are overwritten in place (no assignment: the law must not change, now or after the next write); equal-value writes and writes the setter rejects are generated on purpose (they must neither cancel a pending change nor leave a trace); whenever a write leaves an update flag down the law and the observers' matrices are read at once and must be those of the final parameters; observers reassemble the K of the final law; on every reached state C = C^T, C.S = I, eig(C) > 0, sqrt(C)^2 = C (invariants on visited states only).",
     "NOT decided: SPD / inverse / plane-stress and plane-strain reductions / notation / rotation as statements over all admissible parameters (pure functions of the input; they are evaluated only on the states the histories reach). Parameter sets that a freshly built law rejects in the same way as the live one (differential rule) are counted, not flagged.",
     "deterministic simulation: seeded write/read histories vs freshly-built reference law, ddmin-minimised replay files",
     "DESIGN.md section 5, C11",
 )
 check(
     "C17", "pf",
-    "PARTIAL CLAIM - the irreversibility clauses. Seeded search over load / unload / reverse / shear / zero-load histories of the staggered phase-field solver for all 14 splits x {AT1, AT2} x {History, HistoryDamage, BoundConstrain} on isotropic, transversely isotropic and anisotropic materials (2D) and isotropic 3D bodies (hexahedra, tetrahedra, prisms), including rigid translations (strains at round-off level: the repeated-eigenvalue branches of the spectral decomposition), with varying tolConv / maxIter / convergence option, Save_Iter, Set_Iter(i, resetAll) rollback and injected back-end failures inside the staggered loop. At every saved step: the stored history energy never decreases pointwise; for the two damage-based solvers the saved nodal damage never decreases; BoundConstrain keeps the damage within [previous damage, 1] (the bounded least-squares back end of C04); an all-zero load history leaves the damage at zero. On every visited strain state: sigma+ + sigma- = C:eps, psi+ + psi- = 1/2 eps:C:eps, all finite.",
-    "NOT decided: the split identities over all strain tensors (generic and degenerate) and the projector-vs-eigendecomposition comparison (pure). One open finding (AT1 with a vanishing positive energy gives a singular damage system and NaN) is steered around in the random batch by a damage-free clamp and reproduced from its own replay file.",
+    "PARTIAL CLAIM - the irreversibility clauses, and the split clauses on the states the histories visit. Seeded search over load / unload / reverse / shear / zero-load / rigid-translation / homogeneous-strain histories (prescribed u = A x with repeated principal strains: equibiaxial, hydrostatic, confined and uniaxial patterns, whose computed principal values coincide exactly or up to round-off) of the staggered phase-field solver for all 14 splits x {AT1, AT2} x {History, HistoryDamage, BoundConstrain} on isotropic, transversely isotropic and anisotropic materials (2D) and isotropic 3D bodies (hexahedra, tetrahedra, prisms), including rigid translations (strains at round-off level: the repeated-eigenvalue branches of the spectral decomposition), with varying tolConv / maxIter / convergence option, Save_Iter, Set_Iter(i, resetAll) rollback and injected back-end failures inside the staggered loop. At every saved step: the stored history energy never decreases pointwise; for the two damage-based solvers the saved nodal damage never decreases; BoundConstrain keeps the damage within [previous damage, 1] (the bounded least-squares back end of C04); an all-zero load history leaves the damage at zero. On every visited strain state: sigma+ + sigma- = C:eps, psi+ + psi- = 1/2 eps:C:eps, all finite; on every visited strain and stress tensor the spectral projector P+ applied to the tensor equals the positive part given by numpy.linalg.eigh (1e-7 relative) and P+ + P- is the identity.",
+    "NOT decided: the split and projector clauses as statements over ALL strain tensors (pure functions of the input): they are evaluated only on the tensors the simulated histories reach (which include zero, hydrostatic, uniaxial, equibiaxial and round-off-degenerate states in 2D and 3D); the 4th-order projector is checked through its action on the tensor it was built from, not as a derivative. One open finding (AT1 with a vanishing positive energy gives a singular damage system and NaN) is steered around in the random batch by a damage-free clamp and reproduced from its own replay file.",
     "deterministic simulation: seeded load/solve/save/rollback/fault histories, monotonicity oracles over the recorded history, ddmin-minimised replay files",
     "DESIGN.md section 5, C17",
 )
 check(
     "C18", "hyper",
-    "PARTIAL CLAIM - the discrete energy-balance clause and, on the visited states only, the Newton-system consistency clause. Seeded trajectories of free motion (clamped or free bodies; static preload and/or random initial velocity) under the midpoint scheme with the gonzalez stress, the adaptive quadrature stress (energyTol = 1e-10), fixed strain-path rules (1, 2, 3, 5 points: exactly conserving for Saint-Venant-Kirchhoff, whose dW/de is linear) and the pointwise stress (not conserving: consistency checks only), for NeoHookean, Mooney-Rivlin, Ciarlet-Geymonat and Saint-Venant-Kirchhoff laws, step-size changes between steps, Save_Iter / Set_Iter rollback and injected back-end failures inside a Newton iteration followed by a retry. Invariant after every step: |KE + W - E0| <= 1e-5 of the energy scale; a failed step leaves (u, v, a) untouched; rollback returns to the recorded energy. At trial states away from u_n along the trajectory: A = coefK K + coefC C + coefM M applied to a direction equals the central difference of the assembled residual (scheme, stress option and previous state included). At the reference state each run starts from: W = 0, zero internal force, the unloaded static solve does not move the body.",
+    "PARTIAL CLAIM - the discrete energy-balance clause and, on the visited states only, the Newton-system consistency clause. Seeded trajectories of free motion (clamped or free bodies; static preload and/or random initial velocity) under the midpoint scheme with the gonzalez stress, the adaptive quadrature stress (energyTol = 1e-10), fixed strain-path rules (1, 2, 3, 5 points: exactly conserving for Saint-Venant-Kirchhoff, whose dW/de is linear) and the pointwise stress (not conserving: consistency checks only), for NeoHookean, Mooney-Rivlin, Ciarlet-Geymonat, Saint-Venant-Kirchhoff and Holzapfel-Ogden (two fibre families, every term switched on) laws, step-size changes between steps, Save_Iter / Set_Iter rollback and injected back-end failures inside a Newton iteration followed by a retry. Invariant after every step: |KE + W - E0| <= 1e-5 of the energy scale; a failed step leaves (u, v, a) untouched; rollback returns to the recorded energy. At trial states away from u_n along the trajectory: A = coefK K + coefC C + coefM M applied to a direction equals the central difference of the assembled residual (scheme, stress option and previous state included). At the reference state each run starts from: W = 0, zero internal force, the unloaded static solve does not move the body.",
     "NOT decided: stress = dW/de, tangent = d(stress)/de, objectivity (pure); tangent/residual consistency is checked only for the assembled Newton system on visited states, not per operator over all inputs. Runs with a non-converging or inverted step are discarded and counted. The mass matrix is the one the simulation assembles.",
     "deterministic simulation: seeded dynamic trajectories with fault injection, conserved-quantity oracle, ddmin-minimised replay files",
     "DESIGN.md section 5, C18",
 )
 check(
     "C19", "mat",
-    "Seeded strain histories (increments, reversals, unloads, holds, direction changes; points of one element in different regimes) with commit / no-commit / repeat / retry-with-smaller-step call patterns on Behavior.Integrate for every accepted combination of yield surface (none, von Mises, Hill, Drucker-Prager), isotropic hardening (none, Linear, Voce, Swift), 0-2 kinematic components, rate law (none, Norton, Perzyna), 0-2 Maxwell branches, in 3D / plane strain / plane stress; a twin behaviour with solver='newton' in lock-step; Simulations.InElastic on a small mesh with injected back-end failures in the Newton loop. Oracles: stress inside the yield surface, accumulated plastic strain non-decreasing, traceless plastic strain (J2/Hill), dissipation sigma:deps - dpsi >= 0, algorithmic tangent = central difference of the returned stress away from kinks, both local solvers agree, sigma_zz = 0 in plane stress, exact linear elasticity without internal variables, Integrate is pure (committed state byte-identical, repeat calls identical), only Save_Iter advances the committed state, a failed-then-retried step equals the unfaulted one.",
+    "Seeded strain histories (increments, reversals, unloads, holds, direction changes; points of one element in different regimes) with commit / no-commit / repeat / retry-with-smaller-step call patterns on Behavior.Integrate for every accepted combination of yield surface (none, von Mises, Hill, Drucker-Prager), isotropic hardening (none, Linear, Voce, Swift), 0-2 kinematic components, rate law (none, Norton, Perzyna), 0-2 Maxwell branches, in 3D / plane strain / plane stress; a twin behaviour with solver='newton' in lock-step; Simulations.InElastic on a small mesh with injected back-end failures in the Newton loop, repeated Save_Iter without a solve (holds, checkpoints) and rollbacks. Oracles: stress inside the yield surface, accumulated plastic strain non-decreasing, traceless plastic strain (J2/Hill), dissipation sigma:deps - dpsi >= 0, algorithmic tangent = central difference of the returned stress away from kinks, both local solvers agree, sigma_zz = 0 in plane stress, exact linear elasticity without internal variables, Integrate is pure (committed state byte-identical, repeat calls identical), only Save_Iter advances the committed state, a Save_Iter without a solve since the last commit commits the very same history, committing a solved step never lowers the accumulated plastic strain, a failed-then-retried step equals the unfaulted one.",
     "Admissibility / dissipation / tangent checks apply to rate-independent configurations; dissipation is skipped with Armstrong-Frederick recall. Points the code flags as non-converged are excluded and counted. Neutral-loading points (on the surface, not flowing) are excluded from tangent comparisons. Finite-difference steps are chosen above the solver tolerances.",
     "deterministic simulation: seeded strain/commit/fault histories with invariant and purity oracles, ddmin-minimised replay files",
     "DESIGN.md section 5, C19",
